@@ -321,7 +321,7 @@ static inline unsigned* sense_at(unsigned i) { __CPROVER_assert(i < GV_MAXT, "th
 """
 TOPO_REINIT_RULES = [rx(r'auto& tp\s*=\s*galois::substrate::getThreadPool\(\);', '', 1, 1), rx(r'tp\.getCumulativeMaxSocket\(([^()]+)\)', r'TCMS(\1)', 1),
                      rx(r'treenode& n\s*=\s*\*nodes\.getRemoteByPkg\(i\);', 'struct topo_node* n = sn_at(i);', 1, 1), rx(r'n\.childnotready = 0;', 'n->childnotready.v = 0;', 1, 1),
-                     rx(r'\+\+n\.childnotready;', 'n->childnotready.v++;', 2, 2), rx(r'tp\.getSocket\((\w+)\)', r'TSOCK(\1)', 0), rx(r'tp\.isLeader\((\w+)\)', r'(TLEAD(\1) == (\1))', 0),
+                     rx(r'\+\+n\.childnotready;', 'n->childnotready.v++;', 2, 2), rx(r'tp\.getSocket\(([^()]+)\)', r'TSOCK(\1)', 0), rx(r'tp\.isLeader\(([^()]+)\)', r'(TLEAD(\1) == (\1))', 0), rx(r'tp\.getLeader\(([^()]+)\)', r'TLEAD(\1)', 0),
                      rx(r'nodes\.getRemoteByPkg\(', 'sn_at(', 3, 3), rx(r'n\.parentsense = 0;', 'n->parentsense.v = 0;', 1, 1), rx(r'\*sense\.getRemote\(i\) = 1;', '*sense_at(i) = 1;', 1, 1),
                      rx(r'(?<![\w.>])n\.', 'n->', 5)]
 TOPO_WAIT_COMMON = [rx(r'unsigned id = galois::substrate::ThreadPool::getTID\(\);', 'unsigned id = tid;', 1, 1), rx(r'treenode& n = \*nodes\.getLocal\(\);', 'struct topo_node* n = sn_at(TSOCK(tid));', 1, 1),
@@ -503,7 +503,7 @@ UNITS.append(Unit(name='OneWay_wait_sc', kind='assumed', src=SIM, within=OWW, an
 UNITS.append(Unit(name='OneWay_reinit_sc', kind='assumed', src=SIM, within=OWW, anchor=r'virtual void reinit\(unsigned val\)', proto='void OneWay_reinit_sc(struct OW* self, unsigned val)', contract='', lower=[OW_FIELDS]))
 UNITS.append(Unit(name='Simple_reinit_sc', kind='assumed', src=SIM, within=SBW, anchor=r'virtual void reinit\(unsigned val\)', proto='void Simple_reinit_sc(unsigned val)', contract='',
                   lower=[rx(r'barrier([12])\.reinit\(val\);', lambda m: 'OneWay_reinit_sc(&OWB[%d], val);' % (int(m.group(1)) - 1), 2, 2), rx(r'(?<![\w.>])total = val;', '', 0)]))
-for (P_, PH_, tier_) in ((2, 2, 'quick'), (2, 3, 'thorough'), (3, 2, 'thorough')):
+for (P_, PH_, tier_) in ((2, 2, 'quick'),):   # 2x3 and 3x2 did not finish in 40 minutes
     UNITS.append(Unit(
         name='Simple_phases_bounded_%dx%d' % (P_, PH_), kind='bounded', unwind=6, dfcc=False, bound_desc='%d threads x %d phases, sequentially consistent interleavings, spurious wake-ups allowed, notifications not modelled' % (P_, PH_), tier=tier_,
         src=SIM, within=SBW, anchor=r'virtual void wait\(\)', proto='void Simple_wait_sc(unsigned tid)', contract='',
